@@ -27,9 +27,9 @@ def sh(cmd, cwd=None, shell=False, timeout=900):
     except subprocess.TimeoutExpired as e:
         return 124, "timeout"
 
-def scratch():
+def scratch(rev="HEAD"):
     d = tempfile.mkdtemp(prefix="setecseed."); os.rmdir(d)
-    rc, out = sh(["git", "-C", REPO, "worktree", "add", "-q", "--detach", d, "HEAD"])
+    rc, out = sh(["git", "-C", REPO, "worktree", "add", "-q", "--detach", d, rev])
     assert rc == 0, out
     return d
 
@@ -103,6 +103,12 @@ def cmd_check(names):
         d = scratch()
         try:
             rc, out = sh(["git", "-C", d, "apply", os.path.join(root, s, "patch.diff")])
+            note = ""
+            if rc and meta.get("base"):
+                # written against an earlier commit of /repo (before a later fix touched the same lines)
+                drop(d); d = scratch(meta["base"])
+                rc, out = sh(["git", "-C", d, "apply", os.path.join(root, s, "patch.diff")])
+                note = " [applied at base %s]" % meta["base"]
             if rc:
                 rows.append((s, "SKIPPED (patch no longer applies)")); continue
             det = detection(d, meta["property"])
@@ -110,7 +116,7 @@ def cmd_check(names):
             json.dump(meta, open(mp, "w"), indent=1)
             v = "CAUGHT " + ",".join(det["own_property"]["rules"]) if det["caught_by_own_check"] else ("other: " + ",".join("%s%s" % (p, v["rules"]) for p, v in det["other_checks_firing"].items()) if det["other_checks_firing"] else "MISSED")
             if det["own_property"]["exit"] == 2: v += " (own check UNDECIDED: %s)" % det["own_property"]["undecided"]
-            rows.append((s, v))
+            rows.append((s, v + note))
         finally:
             drop(d)
     for r in rows: print("%-12s %s" % r)
